@@ -22,7 +22,7 @@ let parse_a64_op (t : string) : Rwinfo.a64_operand =
   match t.[0], parts with
   | ('v' | 'x' | 'w' | 's'), _ -> Rwinfo.AReg None
   | 'e', [k; _; idx] ->
-    let et = (match k.[1] with 'b' -> 1 | 'h' -> 2 | 's' -> 3 | 'd' -> 4 | _ -> failwith "elem") in
+    let et = (match k.[1] with 'b' -> 1 | 'h' -> 2 | 's' -> 3 | 'd' -> 4 | 'q' -> 5 | 'p' -> 6 | _ -> failwith "elem") in
     Rwinfo.AReg (Some (n_of_int et, cn_of_string idx))
   | 'm', (_ :: _ :: mode :: rest) ->
     let mode = int_of_string mode in
